@@ -6,6 +6,21 @@ def rel(budget, shards=NC, **kw):
     return dict(engine="native-rel", shards=shards, budget=budget, **kw)
 
 META = {
+    "C02": dict(
+        level="exploration",
+        technique="runtime monitoring: probe Sound/Effect implementations (known per-frame signals, affine order-sensitive effects, call logs) through the real AudioManager/Renderer, compared per frame with an independent f64 model of the documented signal flow",
+        design_ref="DESIGN.md §3 C02",
+        rule=("Random histories (12-40 callbacks of random sizes 1..3*ibs+5, internal buffer 1..333, 4 sample rates): add top-level and nested tracks (depth <= 4) with 0-2 affine probe effects, random send routes and volumes; play/stop probe sounds on any track or the main track; "
+              "pause/resume tracks, set track/main volumes (instant tweens), drop tracks (with subtree) and send tracks. Every callback: each live, un-paused probe must be asked for exactly the callback's frames in slices <= ibs with dt == 1/sr (paused/removed ones for 0 frames); "
+              "every output frame must equal the documented sum (sound -> effects in order -> x track volume -> parent and send routes -> send effects x send volume -> main effects x main volume) within 2e-5 x sum|contributions|, and exactly 0 when nothing is routed. "
+              "Callbacks in which a resume or volume change takes hold contain a one-chunk ramp and are not compared sample-exactly (counted separately). A case is distinct when (tree/send shape, ibs, sample rate, history length) is new and >= 1 frame was compared."),
+        domain="volumes -18..+3 dB, affine effects gain {1,0.5,-0.75,1.25,0.9} offset 0 or +-0.003, up to 3 sends; one pause-or-resume per track per callback interval (cross-kind ordering within an interval is C07's subject)",
+        assumptions=["removal timing follows the rule stated in C08: next callback if already picked up, the one after otherwise", "built-in non-linear effects are covered by C13/C14"],
+        quick=[rel(25)],
+        thorough=[rel(900)],
+        level_text="Per-frame comparison of the real mixer against an independent model over ~4x10^4 (quick) / 10^6 (thorough) random track/send/sound histories; exploration.",
+        level_note="Trusts the harness model of the documented signal flow and the probe implementations of the public Sound/Effect traits.",
+    ),
     "C04": dict(
         level="exploration",
         technique="runtime monitoring: index-coded source frames with poison outside the slice, real Box<dyn Sound> from StaticSoundData::into_sound driven with MockInfoBuilder; independent transport + Hermite oracle; local successor/seek-landing trace monitor for commands",
@@ -41,6 +56,53 @@ META = {
         thorough=[rel(600)],
         level_text="Online monitor over ~10^5 (quick) / 10^7 (thorough) generated tween histories of the real Parameter/Tweener code with an independent oracle; exploration of an unbounded input space, not a proof.",
         level_note="Trusts the harness reference easing implementation and the MockInfoBuilder-provided clock info as a faithful stand-in for real clocks (C05 covers the real ones).",
+    ),
+    "C09": dict(
+        level="exploration",
+        technique="runtime monitoring: differential lock-step execution of the real streaming and static Box<dyn Sound> on identical data, settings and command histories; decoder kept ahead via dec.* hooks (logical waiting)",
+        design_ref="DESIGN.md §3 C09",
+        rule=("Random pairs: noise content of length 0..24k (quick) / 40k (thorough) frames (crossing the 16384-frame ring), slices, start positions, loop regions (incl. to the end), rates {1, 0, 0.1..4}, volume/panning, fade-in, delayed start, device/sound rate pairs, "
+              "decoder packet plans (1, fixed 1..4096, variable, 4096/1/333) and seek granularities {1,8,64,1000,4096}; chunk sizes 1..512; random histories of set_volume/set_panning/set_playback_rate/pause/resume/resume_at(delayed)/stop with random tweens applied to both handles (no seeks). "
+              "Before every callback the harness waits until the decoder has filled its ring or ended (two fresh dec.wait hook hits). Compared after every callback: every output frame (1e-6 x scale), state(), and until Stopped position() within one frame along the transport path (cyclic in a loop). "
+              "A case is distinct and non-trivial when (packet plan class, seek granularity, loop?, slice?, rate class, longer-than-ring?) is new and >= 1 non-silent frame was compared."),
+        domain="valid slices and loop regions (start<end<=len); non-negative rates; no seek commands (per the property)",
+        assumptions=["a pair whose decoder does not reach ring-full/end within 5 s wall is inconclusive (counted, never a violation)", "ScriptedDecoder implements the public Decoder trait; seeks land on multiples of the granularity at or before the request"],
+        quick=[rel(40)],
+        thorough=[rel(900)],
+        level_text="Lock-step differential oracle over ~5x10^3 (quick) / 2x10^5 (thorough) generated pairs with command histories; exploration.",
+        level_note="Trusts that the static implementation is the reference behaviour (C04 checks it independently) and the hook-based 'decoder is ahead' gate.",
+    ),
+    "C10": dict(
+        level="fault_enumeration",
+        technique="runtime monitoring with fault injection: ScriptedDecoder fails its k-th decode/seek call (exhaustively for short streams) in every scene x decoder pace; thread end decided from the decoder's Drop and dec.* hook activity; index-coded audio checked for gaps-only behaviour",
+        design_ref="DESIGN.md §3 C10",
+        rule=("Exhaustive part: for scenes {main track, sub-track, paused track, stopped with fade} and every k <= 12 (quick) / 64 (thorough): the k-th decode call fails once, every decode call from the k-th on fails, the k-th seek call fails (construction, loop wraps), on streams sized so that the k-th call is made. "
+              "Random part: scene in {main, sub-track, rejected by a full track, paused track, track dropped, manager dropped, handle dropped, stopped with fade, natural end} x pace {ahead, slow decode (300 us), stalled (gated through dec.step permits)} x fault x loop region x stop/drop moment. "
+              "Oracles: after an error state()==Stopped within 2 callbacks, unloaded, silent, pop_error() == the first injected error; decoder Drop observed (thread ended) or else >= 300 further decode-loop iterations with nothing to do = violation, neither within 4 s = inconclusive; "
+              "> 2000 loop re-runs after an error = busy spin; index-coded frames strictly consecutive (mod loop), across a gap of silence resume within one frame; no decoder destroyed inside a callback; no allocation in callbacks. "
+              "A case is distinct and counted when its fault was actually reached (the decoder counted the failing call) or it is a fault-free life-cycle case with a new (scene, pace, loop) combination."),
+        exhaustive_quick=True,
+        exhaustive_thorough=True,
+        domain="streams of 1..3000 frames (40000 for confirmations), packets 1..4096; excluded while listed as known findings: scene 'track dropped' (thread-end verdict) and multi-frame resume skips of starving paces (counted instead)",
+        assumptions=["exhaustive:true refers to the enumeration of fault positions k for the stated scenes and bound", "thread end is observed through the ScriptedDecoder's Drop; wall-clock only bounds the inconclusive verdict"],
+        quick=[rel(30)],
+        thorough=[rel(900)],
+        level_text="Every fault position up to a bound is injected into the real decode scheduler in several scenes, plus random scene/pace/fault combinations with real threads; liveness ('thread ends') is restated as bounded progress in hook-observed loop iterations.",
+        level_note="Trusts the hook placement in DecodeScheduler and the ScriptedDecoder; schedules between the decoder thread and the harness are whatever the OS produces (sampled, not enumerated).",
+    ),
+    "C11": dict(
+        level="exploration",
+        technique="runtime monitoring: metamorphic comparison of several renderings of one fixed-parameter scene under different internal buffer sizes, callback partitions and channel counts",
+        design_ref="DESIGN.md §3 C11",
+        rule=("Random scenes of real components (static noise sounds with any rate/loop/pan/volume/reverse, track trees depth <= 3, up to 2 sends with routes, chains of the 8 built-in effects with fixed parameters incl. nested delays) are rendered once with internal buffer 128 / callbacks of 128 and three more times with "
+              "buffer sizes from {1,2,3,7,16,64,128,333,1024,4096}, callback-size sequences (one-frame, non-multiples, 441, random 1..3*ibs) and 1..8 channels. Every frame is compared: bit-exact for scenes without recursive effects, <= 1e-6 otherwise; mono must be (L+R)/2 of the reference, extra channels silent. "
+              "15 % of scenes have no effects, 35 % only memoryless effects. A case is distinct when (tracks, sends, sounds, recursive?, main-chain kinds) is new and the reference rendering is non-silent."),
+        domain="fixed parameters, no commands in flight, stable effect settings (loop gain < 1), degenerate settings listed under C13 are not generated",
+        assumptions=["clocks/tweens/modulators are chunk-quantised by design and belong to C05/C06/C17"],
+        quick=[rel(25)],
+        thorough=[rel(900)],
+        level_text="Metamorphic oracle over ~6x10^3 (quick) / 5x10^5 (thorough) scenes x 3 alternative renderings of the real renderer; exploration.",
+        level_note="Trusts only equality between renderings of the same code (no reference model).",
     ),
     "C13": dict(
         level="exploration",
